@@ -9,6 +9,7 @@ fn main() {
     cfg.block_changes = true;
     cfg.max_depth = 5;
     cfg.probe_funds = true;
+    cfg.huge_blocks = true;
     run_prop("C05", "c05", cfg, 150, 1500, vec![],
         "scenarios with call chains user -> contract -> contract ... to depth 5 through all five entry points, funds in {none, partial, more than owned, zero-amount coin, duplicate denoms}, block changed by set_block between calls; distinct by SHA-256; non-trivial = some contract was called by another contract with funds attached, or a call with funds failed",
         &|sc, obs| {
